@@ -58,12 +58,27 @@ Phase(r, A, N, combo, ex, run, mex, stale, ph) ==
          IF ph = 2 /\ r.pk = "comp" /\ ex # D /\ stale
          THEN {<<"C19.provider_cache", "stale", ph>>}
          ELSE {<<v[1], v[2], ph>> : v \in Blame(r, A, N, cur, ex, D)})
+\* phase 3: after plain lookups r.pokes on the same provider objects (get with some default / print_active_tags) the
+\* decisions are taken again under unchanged values.  Only an answer that the lookups CHANGED is judged here (an answer
+\* that was already wrong is reported by phase 2): a lookup never changes what the provider knows.
+LookedUp(r, A, N, cur, now, before) ==
+   IF now = before \/ now = DefExcludedA(A, N, cur) THEN {}
+   ELSE LET bl == {v \in Blame(r, A, N, cur, now, DefExcludedA(A, N, cur)) : v[1] = "C19.unknown_category"} IN
+        IF bl # {} THEN {<<v[1], v[2], 3>> : v \in bl} ELSE {<<"C19.provider_cache", "lookup", 3>>}
+Phase3(r, A, N, j) ==
+   (IF r.run4[j] = r.ex4[j] THEN {<<"C19.run_is_negation", "same", 3>>} ELSE {})
+   \cup
+   (IF r.mk = "composite"
+    THEN (IF r.ex4[j] # (\E m \in 1..r.nm : r.mex4[j][m]) THEN {<<"C19.composite", "any", 3>>} ELSE {})
+         \cup UNION {LookedUp(r, A, N, CurOf(r, r.combos2[j], m), r.mex4[j][m], r.mex3[j][m]) : m \in 1..r.nm}
+    ELSE LookedUp(r, A, N, CurOf(r, r.combos2[j], 0), r.ex4[j], r.ex3[j]))
 Judge(r, j, A, N) ==
    IF r.exc[j] # "" THEN {<<"C19.exclude", "exc", 1>>}
    ELSE LET D1 == DefExcludedA(A, N, CurOf(r, r.combos[j], 0)) IN
         Phase(r, A, N, r.combos[j], r.ex[j], r.run[j], r.mex[j], FALSE, 1)
         \cup (IF r.mk # "composite" /\ r.ex2[j] # r.ex[j] /\ r.ex2[j] # D1 THEN {<<"C19.provider_cache", "warm", 1>>} ELSE {})
         \cup Phase(r, A, N, r.combos2[j], r.ex3[j], r.run3[j], r.mex3[j], r.ex[j] = D1 /\ r.combos2[j] # r.combos[j], 2)
+        \cup Phase3(r, A, N, j)
 Findings(r) == IF ~r.judge THEN {}
                ELSE LET N == SeqToSet(r.N)
                         A == DefActive(r.tags, SeqToSet(r.P), r.sep)      \* the active tags of the row, read once
@@ -82,18 +97,23 @@ Predicted(r, j, sel, wsel) ==
             provs2 == [m \in 1..r.nm |-> DictProv(CurOf(r, r.combos2[j], m))] IN
         [ex |-> AlgCompositeSel(sel, provs, r.ign), ex2 |-> AlgCompositeSel(sel, provs, r.ign),
          mex |-> [m \in 1..r.nm |-> AlgExcludedSel(sel, provs[m], r.ign)],
-         ex3 |-> AlgCompositeSel(sel, provs2, r.ign), mex3 |-> [m \in 1..r.nm |-> AlgExcludedSel(sel, provs2[m], r.ign)]]
+         ex3 |-> AlgCompositeSel(sel, provs2, r.ign), mex3 |-> [m \in 1..r.nm |-> AlgExcludedSel(sel, provs2[m], r.ign)],
+         ex4 |-> AlgCompositeSel(sel, provs2, r.ign)]
    ELSE LET p  == ProvOf(r, r.combos[j])
             p2 == ProvOf(r, r.combos2[j])
-            k1 == AlgCallSel(sel, p, r.ign, EmptyCache)                     \* should_exclude_with
+            k0 == IF r.pre THEN PokeCache(p, r.pokes, EmptyCache) ELSE EmptyCache   \* plain lookups on the fresh provider
+            k1 == AlgCallSel(sel, p, r.ign, k0)                             \* should_exclude_with
             k2 == AlgCallSel(sel, p, r.ign, k1.cache)                       \* should_run_with
             k3 == AlgCallSel(wsel, p, r.ign, k2.cache)                      \* the warming call
             k4 == AlgCallSel(sel, p, r.ign, k3.cache)
             k5 == AlgCallSel(sel, p2, r.ign, k4.cache)                      \* after the lazy values changed
-        IN [ex |-> k1.ex, ex2 |-> k4.ex, mex |-> <<>>, ex3 |-> k5.ex, mex3 |-> <<>>]
+            k6 == AlgCallSel(sel, p2, r.ign, k5.cache)                      \* should_run_with
+            k7 == AlgCallSel(sel, p2, r.ign, PokeCache(p2, r.pokes, k6.cache))   \* plain lookups, then the decision again
+        IN [ex |-> k1.ex, ex2 |-> k4.ex, mex |-> <<>>, ex3 |-> k5.ex, mex3 |-> <<>>, ex4 |-> k7.ex]
 Diverges(r, j, sel, wsel) == r.exc[j] # "" \/ LET q == Predicted(r, j, sel, wsel) IN
                   \/ q.ex # r.ex[j] \/ q.ex2 # r.ex2[j] \/ r.run[j] = r.ex[j]
                   \/ q.ex3 # r.ex3[j] \/ r.run3[j] = r.ex3[j]
+                  \/ q.ex4 # r.ex4[j] \/ r.run4[j] = r.ex4[j]
                   \/ (r.mk = "composite" /\ \E m \in 1..r.nm : q.mex[m] # r.mex[j][m] \/ q.mex3[m] # r.mex3[j][m])
 DivergeAt(r) == LET sel  == AlgSelect(r.tags, r.P, r.sep)
                     wsel == AlgSelect(r.warm, r.P, r.sep)
